@@ -54,7 +54,25 @@ func lifeFamily(prop, name string, weight int, gen func(*RNG) *SrvPlan, online f
 	}
 }
 
+func cliFamily(prop, name string, weight int, gen func(*RNG) *CliPlan, online func(*CliWorld) *Violation, final func(*CliWorld) *Violation, post func(*CliWorld, *RunResult)) *Family {
+	return &Family{Prop: prop, Name: name, Weight: weight,
+		Gen: func(r *RNG) any { p := gen(r); p.Family = name; return p },
+		Run: func(plan any, tape *Tape, ss uint64) *RunResult {
+			return RunCli(plan.(*CliPlan), tape, ss, prop, online, final, post)
+		},
+		Decode: func(b json.RawMessage) (any, error) {
+			p := &CliPlan{}
+			err := json.Unmarshal(b, p)
+			return p, err
+		},
+	}
+}
+
 func init() {
+	register(cliFamily("C02", "c02-split", 1, GenC02Split, nil, func(w *CliWorld) *Violation { return c02Final(w, "C02") },
+		func(w *CliWorld, r *RunResult) { r.Nontrivial = c02Nontrivial(w) }))
+	register(cliFamily("C02", "c02", 4, GenC02, nil, func(w *CliWorld) *Violation { return c02Final(w, "C02") },
+		func(w *CliWorld, r *RunResult) { r.Nontrivial = c02Nontrivial(w) }))
 	register(srvFamily("C14", "c14-server", 1, GenC14, c14Online, c14Final,
 		func(w *SrvWorld, r *RunResult) { r.Nontrivial = c14Nontrivial(w) }))
 	register(&Family{Prop: "C13", Name: "c13", Weight: 1,
